@@ -12,13 +12,20 @@ Lemma arp_spoofer_wf c op dst sm si tm ti junk :
 Proof.
   intros H1 H2 H3 H4 H5 H6 Hop HJ.
   destruct (split_at 42 junk HJ) as (j & rest & -> & Hj).
-  unfold send_arp, enc_arp. destruct c as [hm hip hlla rm rip mtu]. cbn [host_mac a_mac a_ip fst snd] in *.
+  unfold send_arp, arp_args_ok, is_mac, is4. cbn [a_mac a_ip fst snd].
+  rewrite (proj1 H2), (proj1 H3), (proj1 H4), (proj1 H5), (proj1 H6). cbn [Nat.eqb andb negb].
+  unfold enc_arp. destruct c as [hm hip hlla rm rip mtu]. cbn [host_mac a_mac a_ip fst snd] in *.
   explode_ok hm H1. explode_ok dst H2. explode_ok sm H3. explode_ok si H4. explode_ok tm H5. explode_ok ti H6.
   explode j Hj.
   eexists. split; [cbn; reflexivity|].
   unfold wf_arp. cbn. eqbs.
   unfold w16, be16, hi8, lo8. cbn [nth]. rewrite be16_hi_lo by assumption. eqbs.
 Qed.
+
+(* a MAC (destination, sender, target) that is not 6 bytes or an address that is not IPv4 is refused (fix 72c6830) *)
+Lemma arp_spoofer_refuses c op dst sender target junk :
+  arp_args_ok dst sender target = false -> send_arp c op dst sender target junk = Ok [].
+Proof. unfold send_arp. intros ->. reflexivity. Qed.
 
 (* the exported wrappers are instances *)
 Lemma arp_request_to_wf c dst ip junk :
